@@ -35,6 +35,7 @@ type cSub struct {
 	Type int `json:"type"`
 	Len  int `json:"len"`
 	Dts  int `json:"dts"`
+	Sid  int `json:"sid"` // stream id in the sub-message header; 0: the aggregate's
 }
 
 type cStep struct {
@@ -76,7 +77,11 @@ func msgPayload(m *cMsg) (payload []byte, subs [][]byte) {
 			h[1], h[2], h[3] = byte(s.Len>>16), byte(s.Len>>8), byte(s.Len)
 			ts := uint32(aggBaseTs + s.Dts)
 			h[4], h[5], h[6], h[7] = byte(ts>>16), byte(ts>>8), byte(ts), byte(ts>>24)
-			h[8], h[9], h[10] = byte(m.Msid>>16), byte(m.Msid>>8), byte(m.Msid)
+			sid := m.Msid
+			if s.Sid != 0 {
+				sid = s.Sid // overridden by the aggregate's stream id (RTMP 1.0 6.1.1)
+			}
+			h[8], h[9], h[10] = byte(sid>>16), byte(sid>>8), byte(sid)
 			payload = append(payload, h...)
 			payload = append(payload, body...)
 			var back [4]byte
